@@ -212,3 +212,100 @@ func runC18WKT(cfg *config, res *monitor.Result, classes map[string]int64) (eval
 	}
 	return evals
 }
+
+// runC18GogoImportedEnum: gogo messages with an enum field whose type lives in another gogo package. The harness
+// bridge cannot reflect on them (see genwl.targets), so the values are built with Go reflection on the structs;
+// the oracle is gogo's own jsonpb and gogo's Equal.
+func runC18GogoImportedEnum(cfg *config, res *monitor.Result, classes map[string]int64) (evals int64) {
+	pi := 0
+	for _, p := range cfg.pkgs {
+		if p.Group != "import-dep-enum" || p.Flavour != "gogo" {
+			continue
+		}
+		pi++
+		if !cfg.mine(pi) {
+			continue
+		}
+		for _, md := range p.Msgs {
+			newMsg := func() any { return p.New(md.FullName()) }
+			for vi, grades := range [][]int64{{1}, {-3, 0, 1}, {0}, {}} {
+				msg := newMsg()
+				sv := reflect.ValueOf(msg).Elem()
+				setInt := func(f reflect.Value, v int64) {
+					if f.Kind() == reflect.Ptr {
+						f.Set(reflect.New(f.Type().Elem()))
+						f = f.Elem()
+					}
+					f.SetInt(v)
+				}
+				if f := sv.FieldByName("Grade"); f.IsValid() && len(grades) > 0 {
+					setInt(f, grades[0])
+				}
+				if f := sv.FieldByName("Grades"); f.IsValid() {
+					for _, g := range grades {
+						e := reflect.New(f.Type().Elem()).Elem()
+						e.SetInt(g)
+						f.Set(reflect.Append(f, e))
+					}
+				}
+				if f := sv.FieldByName("Name"); f.IsValid() {
+					if f.Kind() == reflect.Ptr {
+						f.Set(reflect.New(f.Type().Elem()))
+						f = f.Elem()
+					}
+					f.SetString(fmt.Sprintf("user-%d", vi))
+				}
+				if f := sv.FieldByName("Thing"); f.IsValid() && f.Kind() == reflect.Ptr && vi%2 == 0 {
+					f.Set(reflect.New(f.Type().Elem()))
+				}
+				for oi := 0; oi < 4; oi++ {
+					enumNums, emitZero := oi&1 != 0, oi&2 != 0
+					optKey := fmt.Sprintf("enum%v/zero%v", enumNums, emitZero)
+					name := fmt.Sprintf("%s (%s)", md.FullName(), p.GoPkg)
+					viol := func(failure, what string, extra map[string]any) {
+						w := map[string]any{"package": p.GoPkg, "message": string(md.FullName()), "grades": grades, "options": optKey}
+						for k, v := range extra {
+							w[k] = v
+						}
+						res.Violate(fmt.Sprintf("C18:gogo:imported-enum:%s:%s", failure, optKey), fmt.Sprintf("%s [%s]: %s", name, optKey, what), w)
+					}
+					cfg.progress.Set("C18", "gogo-imported-enum", p.GoPkg, optKey, fmt.Sprint(grades))
+					evals++
+					var out []byte
+					var merr error
+					if pi := monitor.Try(func() {
+						out, merr = csproto.JSONMarshaler(msg, csproto.JSONUseEnumNumbers(enumNums), csproto.JSONIncludeZeroValues(emitZero)).MarshalJSON()
+					}); pi != nil {
+						viol("marshal-panic", "JSONMarshaler panicked: "+pi.Value, map[string]any{"frame": pi.Frame})
+						continue
+					}
+					rout, rerr := runtimeJSONMarshal("gogo", msg, "", enumNums, emitZero)
+					if merr != nil {
+						if rerr == nil {
+							viol("marshal-error", "JSONMarshaler failed although gogo's jsonpb succeeds: "+merr.Error(), nil)
+						}
+						continue
+					}
+					js := map[string]any{"json": string(clipJSON(out))}
+					if rerr == nil {
+						t1, _ := jsonTree(out)
+						t2, _ := jsonTree(rout)
+						if !json.Valid(out) || !reflect.DeepEqual(t1, t2) {
+							viol("differs-from-runtime", "adapter output differs (as a JSON tree) from gogo's jsonpb", map[string]any{"json": string(clipJSON(out)), "runtime_json": string(clipJSON(rout))})
+						}
+					}
+					back := newMsg()
+					evals++
+					var uerr error
+					if pi := monitor.Try(func() { uerr = csproto.JSONUnmarshaler(back).UnmarshalJSON(out) }); pi != nil {
+						viol("unmarshal-panic", "JSONUnmarshaler panicked: "+pi.Value, js)
+					} else if uerr != nil || !gogoproto.Equal(back.(gogoproto.Message), msg.(gogoproto.Message)) {
+						viol("adapter-roundtrip", fmt.Sprintf("JSONUnmarshaler does not restore the message from the adapter's own output (err=%v)", uerr), js)
+					}
+					classes[fmt.Sprintf("gogo-imported-enum/%s/fast=%v/%s/n%d", p.Unit, p.Fast, optKey, len(grades))]++
+				}
+			}
+		}
+	}
+	return evals
+}
